@@ -12,6 +12,7 @@ RULE = ('lap scripts: random interval multisets (incl. empty set, one huge inter
         'distinct by case text')
 UNIQUE_NOTE = 'seek_run / find_filter: seek and find must both equal filter overlap, the unique allowed answer'
 EXHAUSTIVE = {}
+CROSSCHECK = True      # thorough tier: a sample is re-evaluated inside Coq against the extracted runner
 
 
 def queries(rng, mode, cur, n):
@@ -45,7 +46,7 @@ def gen(rng, tier):
         if rng.random() < 0.12:
             # many SHORT intervals (small max_len): a jump of the query passes dozens of them in one cursor walk
             mode = 'medium'
-            xs = sorted(rng.sample(range(0, 900), rng.choice([25, 40, 70])))
+            xs = sorted(rng.sample(range(0, 900), rng.choice([25, 40, 70, 130, 150])))
             ivs = [(x, x + rng.randint(1, 4)) for x in xs]
             kind = 'le'
         elif rng.random() < 0.08:
